@@ -211,7 +211,7 @@ package act
 //@   trusted
 //@   requires [never_recycle_a_message_that_is_with_a_worker] m == nil || !withWorker(m)
 //@ func (a *Actor) ProcessRun
-//@   props C03 C07
+//@   props C03 C07 C05
 //@   mode int
 //@   no_safety
 //@   may_panic
@@ -221,6 +221,7 @@ package act
 //@   loop 2 invariant [own_message_while_retrying] message == nil || !withWorker(message)
 //@   loop 2 invariant [mailbox2] mboxDistinct(a.mailbox)
 //@   at call Pop assert [strict_priority] (self == a.mailbox.System ==> emptyFlag(a.mailbox.Urgent)) && (self == a.mailbox.Main ==> emptyFlag(a.mailbox.Urgent) && emptyFlag(a.mailbox.System)) && (self == a.mailbox.Log ==> emptyFlag(a.mailbox.Urgent) && emptyFlag(a.mailbox.System) && emptyFlag(a.mailbox.Main))
+//@   at call Errorf assert [an_exit_signal_ends_the_actor_only_if_untrapped_or_from_the_parent] !a.trap || (typeis(message.Message, gen.MessageExitPID) && message.From == parentPid(a.Process))
 //@   at call HandleCall assert [request_presented_with_its_own_ref] arg0 == message.From && arg1 == message.Ref && arg2 == message.Message
 //@   at call HandleCallName assert [request_presented_with_its_own_ref] arg1 == message.From && arg2 == message.Ref && arg3 == message.Message
 //@   at call HandleCallAlias assert [request_presented_with_its_own_ref] arg1 == message.From && arg2 == message.Ref && arg3 == message.Message
@@ -265,3 +266,12 @@ package act
 //@   at call SendExit assert [exit_with_decided_reason] reason == action.reason
 //@   at call SendExit assert [exit_to_listed_child] !(forall i int :: 0 <= i && i < len(action.terminate) ==> action.terminate[i] != to)
 //@   at call childStarted assert [started_child_is_reported] arg0.Name == action.spec.Name
+
+// C05: exit signals and trap-exit. An exit signal ends the actor (the handler returns the error built
+// from the signal) only if the actor does not trap exits, or the signal is a process exit sent by the
+// actor's parent; every other exit signal of a trapping actor is handed to HandleMessage as an
+// ordinary message. parentPid(p) is the parent recorded for the process (uninterpreted).
+//@ spec func parentPid(p gen.Process) gen.PID uninterpreted
+//@ iface gen.Process.Parent
+//@   pure
+//@   ensures result == parentPid(self)
